@@ -59,6 +59,24 @@ def extract_model(m, inputs):
                     vals[name] = {"bytes": None, "raw": str(v)[:200]}
                 else:
                     vals[name] = {"bytes": bytes(x % 256 for x in lst).hex(), "raw_oob": [x for x in lst if not 0 <= x <= 255][:4]}
+            elif kind == "pairlist":
+                v = m.eval(payload, model_completion=True)
+                pairs = []
+
+                def walkp(e):
+                    k = e.decl().kind()
+                    if k == z3.Z3_OP_SEQ_EMPTY:
+                        return True
+                    if k == z3.Z3_OP_SEQ_UNIT:
+                        t = e.arg(0)
+                        if t.num_args() == 2 and all(z3.is_int_value(t.arg(i)) for i in range(2)):
+                            pairs.append([t.arg(0).as_long(), t.arg(1).as_long()])
+                            return True
+                        return False
+                    if k == z3.Z3_OP_SEQ_CONCAT:
+                        return all(walkp(c) for c in e.children())
+                    return False
+                vals[name] = {"pairlist": pairs if walkp(v) else None}
             elif kind == "intlist":
                 v = m.eval(payload, model_completion=True)
                 vals[name] = {"intlist": _seq_to_list(v)}
